@@ -431,6 +431,30 @@ def nested_to(raw):
     return out
 
 
+def nested_to_guided(fam: F.Family, cname: str, raw):
+    """like nested_to, but in FIELD order of the classes (the order of the nested calls) instead of the key order of
+    the returned mapping: a format library may reorder keys (tomli_w writes scalars before tables)."""
+    out = []
+
+    def visit(cn, d):
+        if not isinstance(d, dict):
+            return
+        for f, kind in fam.all_fields(cn):
+            if f not in d:
+                continue
+            child = {"inner": "Inner", "plain": "Plain", "byname": "P", "selfopt": cn, "selflist": cn}.get(kind)
+            if child is None:
+                continue
+            vs = d[f] if kind == "selflist" else [d[f]]
+            for v in (vs if isinstance(vs, list) else []):
+                if isinstance(v, dict):
+                    out.append((child, decode_to(v)))
+                    visit(child, v)
+
+    visit(cname, raw)
+    return out
+
+
 def nested_from(res):
     """the same for from_dict: nested dataclass instances that were actually unpacked (a defaulted
     nested instance has undecoded tags)."""
@@ -556,7 +580,7 @@ class HistoryRun:
                 got, gid, raw = F.call_to_dict(fam, c, vals, di, mp)
                 exp, eid, _ = F.call_to_dict(tw, c, vals, None, mp)
                 mops.append(["call", value_tree(fam, c, vals), di])
-                mouts.append([decode_to(raw)] + [tag for _n, tag in nested_to(raw)])
+                mouts.append([decode_to(raw)] + [tag for _n, tag in nested_to_guided(fam, c, raw)])
                 ok = (got == exp and gid == eid)
                 observed, expected = [got, gid], [exp, eid]
                 flags = self.spec.get("flags", ["dialect"])
@@ -586,7 +610,7 @@ class HistoryRun:
                         tops.append(["define", CID["Plain"]])
                         touts.append([])
                     tops.append(["call", value_tree(fam, c, vals), di])
-                    touts.append([decode_to(doc)] + [tag for _n, tag in nested_to(doc)])
+                    touts.append([decode_to(doc)] + [tag for _n, tag in nested_to_guided(fam, c, doc)])
                 got, res = F.call_from_dict(fam, c, doc, di, mp)
                 exp, _ = F.call_from_dict(tw, c, doc, None, mp)
                 mops.append(["call", value_tree(fam, c, vals), di])
